@@ -88,7 +88,7 @@ PROPS["C06"] = {
     "trusted_base": [],
     "assumptions": ["the denominators 1 +- d x1 x2 y1 y2 are units for points on the curve (d is a non-square): number-theoretic, assumed",
                     "the conditional-add gate's bit b is boolean (constrained where the bit is assigned, not by this gate)"],
-    "claim": "Proof, for the native Edwards gates only, that each gate's constraint ideal contains the cleared-denominator twisted-Edwards law for the cells it queries (soundness of one activation) and that the honest values satisfy every constraint (completeness). Added: ForeignEccChip::mul_by_constant rebuilds its constant correctly (statement slice; Kani), and the ForeignEccChip functions that document preconditions (incomplete_add, assert_add, assert_slope, ...) are called only from the call sites for which those preconditions are argued (call-site ledger; the arguments themselves are hand arguments, trusted; a new call site is reported only when the MockProver witness finds a failing input). Everything else about how cells are assigned and wired, scalar multiplication structure, and the foreign-curve gates is NOT decided.",
+    "claim": "Proof, for the native Edwards gates only, that each gate's constraint ideal contains the cleared-denominator twisted-Edwards law for the cells it queries (soundness of one activation) and that the honest values satisfy every constraint (completeness). Added: ForeignEccChip::mul_by_constant rebuilds its constant correctly (statement slice; Kani), and the ForeignEccChip functions that document preconditions (incomplete_add, assert_add, assert_slope, ...) are called only from the call sites for which those preconditions are argued (call-site ledger; the arguments themselves are hand arguments, trusted; a new call site is reported only when the MockProver witness finds a failing input); the identity-base rewrite of msm_by_bounded_scalars preserves every term s*B (statement-range slice; PolyVC). Everything else about how cells are assigned and wired, scalar multiplication structure, and the foreign-curve gates is NOT decided.",
     "level_note": "PolyVC on the gate closures extracted verbatim; goals decided by exact Groebner reduction (sympy). Trusted: PolyVC parser/executor, sympy.",
     "technique": "contract-based VC generation over gate polynomials (ideal membership by Groebner reduction)",
     "design_ref": "DESIGN.md section 5, C06",
